@@ -26,6 +26,14 @@ checks = {
    text="Closed-resource guard: on every path of every *VFS method, each operation reaching the backend (afero.Fs methods, the optional backend interfaces, afero helpers over fs.vfs) is dominated by the closed-resource test, so a closed zip/tar filesystem serves nothing; direct accessors return the 'failed condition' kind once closed; the guard helper itself is proved (nil iff open). Fields of VFS are proved immutable after construction.",
    note="Trusted: govc, go/ssa, solvers; ICloseableResource.IsClosed as a deterministic predicate during one call (no concurrent Close). Not decided (dependency code): the byte-level zip->unzip round trip, zipfs/tarfs views, read-only refusal by afero.ReadOnlyFs; the returned-list clause is covered by C02/C03's work on unzip.",
    ref="§5 C07"),
+ "C02": dict(level="proof", technique="contract-based deductive verification: string-theory postcondition of the path sanitiser (all entry names, all destinations), frame assertions at every mutating call of the extraction, path lemmas",
+   text="sanitiseZipExtractPath: success implies the joined path lies lexically inside the destination (is it, or starts with destination+'/' and has no '..'), failure is the 'suspected malicious intent' kind - for every entry name and destination string. unzip / unzipZippedFile / unzipNestedZipFiles: every mutating call (MkDir, OpenFile, Chtimes, the recursive extraction, the removal of a nested archive) names a path inside the cleaned destination, including the transcoded path of non-UTF-8 names and the destination derived for nested archives; containment is transitive (lemma).",
+   note="Trusted: govc, go/ssa, solvers (string goals: cvc5); axioms about filepath.Dir/Join/Base/Clean on symbolic paths (specs/path.spec); the platform separator is '/' (entry-point precondition); opening an existing directory for writing is refused by the backend (trusted clause). Not decided: symbolic links already inside the destination, hard links, the OS's own resolution; re-stamping by preserveDirectoriesTimestamps uses the recorded sanitised paths (map invariant not proved).",
+   ref="§5 C02"),
+ "C03": dict(level="proof", technique="contract-based deductive verification: loop invariant on the running totals of the extraction loop (bit-vector arithmetic), call-site assertion on the exact-length copy, ghost 'source drained' state",
+   text="unzip: loop invariant - with limits applied the byte counter never exceeds MaxTotalSize and the entry counter never exceeds MaxFileCount at the loop head, for files, directories and nested archives alike; success implies the returned totals are within the limits; unzipZippedFile copies exactly the declared size, which is within MaxFileSize, and succeeds only after the entry stream has been read to its end (an entry longer than its header declares is an error); newZipReader refuses archives beyond the depth limit; nested archives to any depth by recursion through the contracts.",
+   note="Trusted: govc, go/ssa, solvers; ILimits getters are pure functions of the object; go.uber.org/atomic counters behave as cells; io.CopyN's contract. The invariant bounds the counters the code compares with the limits, not an independent ghost sum of bytes on disk (a change that stops feeding the counter is not caught - corpus/missed/C03). uint64 wrap-around of the totals is physically unreachable and not excluded. Not decided: what is physically on disk, compression ratios.",
+   ref="§5 C03"),
 }
 not_applicable = {
  "C05": "observable is the set of live OS processes and a wall-clock bound (kernel, os/exec, gopsutil): no contract on a /repo function can state it",
